@@ -37,7 +37,7 @@ def replay_chunk(behs):
         for a in b["hist"]:
             if a["op"] == "update":
                 try:
-                    config.update("jaxtyping_disable", pyval(a["v"]))
+                    config.update(a["item"], pyval(a["v"]))
                     obs.append("ok")
                 except ValueError:
                     obs.append("ValueError")
@@ -124,29 +124,48 @@ def main(tier):
     try:
         wd = chk.workdir = __import__("tempfile").mkdtemp(prefix="verif_C19b_")
         cfg = os.path.join(wd, "sw.cfg")
-        tlc.write_cfg(cfg, spec="Spec", constants={"MaxSteps": 50}, view="View", invariants=["DisabledIsPlain"])
+        tlc.write_cfg(cfg, spec="Spec", constants={"MaxSteps": 50, "Reduced": False}, view="View", invariants=["DisabledIsPlain"])
         chk.add_tlc("JtSwitch", tlc.run("JtSwitch", cfg, wd, workers=4))
         steps = 4
         cfg2 = os.path.join(wd, "swe.cfg")
-        tlc.write_cfg(cfg2, spec="Spec", constants={"MaxSteps": steps}, constraints=["Emit"])
+        tlc.write_cfg(cfg2, spec="Spec", constants={"MaxSteps": steps, "Reduced": False}, constraints=["Emit"])
         res = tlc.run("JtSwitch", cfg2, wd, workers=4, heap="8g")
         behs = [json.loads(v[1]) for v in res.printed() if isinstance(v, list) and len(v) == 2 and v[0] == "BEH"]
         if not behs:
             raise MachineryFailure("no JtSwitch behaviours emitted\n" + res.tail())
         chk.add_tlc(f"JtSwitch[emit {steps}]", res)
+        # longer behaviours (switch off - call - switch on - call again ...) by simulation
+        cfg3 = os.path.join(wd, "sws.cfg")
+        tlc.write_cfg(cfg3, spec="Spec", constants={"MaxSteps": 8, "Reduced": False}, constraints=["Emit"])
+        res3 = tlc.run("JtSwitch", cfg3, wd, workers=1, args=["-simulate", f"num={4000 if tier == 'quick' else 60000}", "-depth", "9",
+                                                                "-seed", str(chk.seed + 11)])
+        sims = [json.loads(v[1]) for v in res3.printed() if isinstance(v, list) and len(v) == 2 and v[0] == "BEH"]
+        if not sims:
+            raise MachineryFailure("no simulated JtSwitch behaviours\n" + res3.tail())
+        behs += sims
+        # every sequence of 6 actions over the reduced alphabet (on / off / decorate / call well / call ill)
+        cfg4 = os.path.join(wd, "swr.cfg")
+        tlc.write_cfg(cfg4, spec="Spec", constants={"MaxSteps": 6, "Reduced": True}, constraints=["Emit"])
+        res4 = tlc.run("JtSwitch", cfg4, wd, workers=4, heap="8g")
+        red = [json.loads(v[1]) for v in res4.printed() if isinstance(v, list) and len(v) == 2 and v[0] == "BEH"]
+        if not red:
+            raise MachineryFailure("no reduced JtSwitch behaviours\n" + res4.tail())
+        chk.add_tlc("JtSwitch[reduced alphabet, 6 steps]", res4)
+        behs += red
         nproc = tlc.NCPU
         with ProcessPoolExecutor(max_workers=nproc) as ex:
             outs = list(ex.map(replay_chunk, [behs[i::nproc] for i in range(nproc)]))
         for bad, _ in outs:
             for b in bad[:50]:
-                prog = " ; ".join(a["op"] + ":" + str(a.get("v", a.get("kind", a.get("typed")))) for a in b["program"])
+                prog = " ; ".join(a["op"] + ":" + (a["item"] + "=" if a.get("item", "jaxtyping_disable") != "jaxtyping_disable" else "")
+                                  + str(a.get("v", a.get("kind", a.get("typed")))) for a in b["program"])
                 chk.disagree(f"C19:switch:{prog}", b)
         # environment variable in sub-processes; ParseSwitch decides (evaluated by TLC through the emitted behaviours'
         # first update step: the same spellings) - compare with the in-process result of the same spelling
         inproc = {}
         for b in behs:
             a, o = b["hist"][0], b["obs"][0]
-            if a["op"] == "update":
+            if a["op"] == "update" and a["item"] == "jaxtyping_disable":
                 inproc[a["v"]] = o
         for r in env_runs(chk):
             v = r["v"]
